@@ -59,6 +59,7 @@ class C08(Prop):
         cfg["uniq_names"] = rng.choice([0.0, 0.0, 0.5, 0.9])
         cfg["restart"] = rng.random() < 0.3
         cfg["late_pins"] = 0 if cfg["restart"] else rng.choice([0, 0, 0.4])
+        cfg["wire_reorder_rate"] = rng.choice([0, 0, 0.5])
         if not cfg["restart"] and rng.random() < 0.2:
             cfg["source"] = "v"
             cfg["vgen"] = {"depth": rng.choice([2, 3, 4]), "max_mods": rng.choice([1, 2, 3]), "max_ports": rng.choice([2, 4]),
